@@ -189,11 +189,45 @@ def noteOut (init : Rat) (evs : List (Rat × Rat)) (n : Note) : NoteOut :=
 
 def bpmOut (init : Rat) (evs : List (Rat × Rat)) (e : Rat × Rat) : BpmOut := ⟨e.1, e.2, posTime init evs e.1⟩
 
-/-- what a level must contain (notes in file order): paired notes and tempo points, each at its integrated time -/
+/-- what a level must contain: the paired notes (listed in stable position order — the order is not part of the
+property, the harness compares multisets) and the tempo points, each at its integrated time -/
 def specLevel (init : Rat) (pkgs : List RawPkg) : Except Err LevelOut := do
   let notes ← pairFrom [] (pkgs.flatMap specSlots)
-  let evs := isort (fun a b => decide (a.1 ≤ b.1)) (pkgs.flatMap specBpms)
-  .ok ⟨notes.map (noteOut init evs), ⟨0, init, 0⟩ :: evs.map (bpmOut init evs)⟩
+  let evs := sortBpms (pkgs.flatMap specBpms)
+  .ok ⟨(sortNotes notes).map (noteOut init evs), ⟨0, init, 0⟩ :: evs.map (bpmOut init evs)⟩
+
+/-- the header tempo as the format stores it (the package counts: `packageCounts`, shared with the model) -/
+def headerTempo (hdr : List (String × MetaVal)) : Option Rat :=
+  match lookupMeta hdr "bpm" with
+  | some (.flt (.fin q)) => some q
+  | _ => none
+
+/-- what a level needs for the specification to speak: no measure-fraction package, finite tempo floats, every
+tail paired, no head left open at the end of the level -/
+def wfLevel (pkgs : List RawPkg) : Bool :=
+  pkgs.all (fun p => decide (p.channel ≠ 0)) && pkgs.all allFinite &&
+    closedB (pkgs.flatMap specSlots) &&
+    (match pairFrom [] (pkgs.flatMap specSlots) with | .ok _ => true | .error _ => false)
+
+/-- **the specification of `O2JMapSet.read`** : header attributes at the declared offsets, then one level per
+package-count entry (a count of 0 gives a level with no notes and the header tempo only) -/
+def specSet (bs : List Nat) : Except Err FileOut := do
+  let hdr ← specMeta bs
+  match frameLevels (packageCounts hdr) (bs.drop headerSize), headerTempo hdr with
+  | some lvls, some q => do
+    let outs ← mapE (specLevel q) lvls
+    .ok ⟨hdr, outs⟩
+  | _, _ => .error .index
+
+/-- well-formed .ojn in the sense of the property's quantifier (as far as the theorems need it): at least 300 bytes,
+the package counts can be framed, header tempo finite and non-zero, every level `wfLevel` -/
+def wellFormed (bs : List Nat) : Bool :=
+  match specMeta bs with
+  | .error _ => false
+  | .ok hdr =>
+    match frameLevels (packageCounts hdr) (bs.drop headerSize), headerTempo hdr with
+    | some lvls, some q => decide (q ≠ 0) && lvls.all wfLevel
+    | _, _ => false
 
 /-- well-formedness of a level in the sense of the property's quantifier: no measure-fraction package, finite
 positive tempos, non-negative measures, every long note closed inside the level -/
